@@ -461,7 +461,6 @@ def corpus_variants(pid: str, ctx: Ctx) -> list:
 UNDECIDABLE_SEEDS = (
     "C14d",   # vendored euler_from_matrix edited: summary must be re-derived
     "C07j",   # EuRoC stamps parsed with integer arithmetic in a new helper
-    "C11h",   # motion filter loop re-written over zip(poses, distances)
     "C13j",   # per-array merge strategy table
     "C15i",   # inversion moved into load_transform(invert=...) (analytic)
     "C14k",   # vendored euler_from_matrix edited (assumption A4, as C14d)
